@@ -17,7 +17,7 @@ EXPLANATION = (
     'user callback; R04.g crux-provided futures keep the poll\'s waker; R04.h done / event / notify_shell / request_from_shell / '
     'stream_from_shell make exactly the one context call they stand for, on every path, with their own argument; R04.i every task leaving a command wakes its join handles. '
     'Equivalence to the reference semantics, the algebraic laws and the behaviour of then_request/then_stream under every resolution '
-    'order quantify over expressions x schedules and are NOT decided. R04.j a hosted command returns Pending only after both output queues were found empty and ends only when done (shared with C07 R07.e). R04.l each chaining method is built on the adaptor that gives its documented order, judged over its whole family (body, closures, builder functions it calls): a request chained to a request or to a stream goes through a sequential stage (`then`) and no concurrent or flattening adaptor; streams chained to a stream are flattened concurrently (`flatten_unordered`) and never serially.')
+    'order quantify over expressions x schedules and are NOT decided. R04.j a hosted command returns Pending only after both output queues were found empty and ends only when done (shared with C07 R07.e). R04.m the closure given to the `new` of a builder only builds the future: no notify_shell, send_event or spawn (which act at the call) in its own body, in crux_core and the capability crates. R04.l each chaining method is built on the adaptor that gives its documented order, judged over its whole family (body, closures, builder functions it calls): a request chained to a request or to a stream goes through a sequential stage (`then`) and no concurrent or flattening adaptor; streams chained to a stream are flattened concurrently (`flatten_unordered`) and never serially.')
 
 HOST = 'crux_core::command::stream::CommandStreamExt::host'
 POLL = 'core::future::future::Future::poll'
@@ -177,6 +177,43 @@ def check_stage_order(rep, rid, core):
         rep.expect(rid, bool(have) and not bad, key, 'built on %s (adaptors in its family: %s)' % (have, sorted(used)),
                    '%s::%s is no longer built on %s%s: %s' % (adt, name, '/'.join(sorted(need)),
                                                              (' but on %s (%s)' % (bad, used[bad[0]])) if bad else ' (adaptors: %s)' % sorted(used), why))
+
+
+EAGER_CONTEXT_CALLS = ['crux_core::command::context::CommandContext::notify_shell', 'crux_core::command::context::CommandContext::send_event',
+                       'crux_core::command::context::CommandContext::spawn']
+
+
+def check_builders_lazy(rep, rid, crates):
+    """a builder describes work; nothing happens until the future it makes is polled.  The closure given to NotificationBuilder /
+    RequestBuilder / StreamBuilder::new only BUILDS that future: a notification, an event or a spawn — which take effect at the call —
+    may be made inside the future (an async block, a combinator closure) but never in the body of the make-task closure itself
+    (request_from_shell / stream_from_shell only create a future that sends at its first poll: C01 R01.f)"""
+    from rules.common import Summaries
+    sm = Summaries(crates)
+    n = 0
+    for c in crates:
+        for f in c.built:
+            if f.j.get('exp') or '::testing' in f.npath or '::tests' in f.npath:
+                continue
+            for bb, t in f.calls():
+                cal = norm(t.get('callee') or '')
+                if not (cal.startswith('crux_core::command::builder::') and last_seg(cal) == 'new' and t.get('args')):
+                    continue
+                for o in origins(f, t['args'][0]):
+                    if not (o.kind == 'agg' and o.stmt['rv'].get('ak') == 'closure'):
+                        continue
+                    g = c.by_exact(o.stmt['rv']['def'])
+                    if g is None or g.coroutine:
+                        continue
+                    n += 1
+                    eager = sm.sites(g, EAGER_CONTEXT_CALLS, 'may')
+                    key = '%s|%s|lazy' % (c.host_root(f), last_seg(cal.rsplit('::', 1)[0]))
+                    rep.expect(rid, not eager, key, 'the make-task closure only builds the future',
+                               '%s: the closure given to %s acts when the future is BUILT (%s), not when it runs: the output appears ahead of the '
+                               'stages before it, and also when the future is dropped unpolled' % (
+                                   f.path, cal, [g.where(b) for b in eager]))
+    if n < 10:
+        rep.bad(rid, 'sites', 'expected at least 10 builder constructions with a make-task closure, found %d' % n)
 
 
 def fold_of_and(f):
@@ -377,6 +414,8 @@ def check(ctx, rep):
                    'Command::all does not spawn every item of its argument (iterator adapted or spawn outside the loop)')
     counts = c01.check_linear(rep, core, 'default', rid='R04.c', only=lambda f, ty: 'crux_core::command::Command<' in ty)
     check_builders(rep, core)
+    rep.rule('R04.m', 'a builder\'s make-task closure only builds its future: notifications, events and spawns happen when the future runs', floor=10)
+    check_builders_lazy(rep, 'R04.m', [c_ for c_ in (core, ctx.crate('default', 'crux_http'), ctx.crate('default', 'crux_kv'), _CTX['time']) if c_ is not None])
     rep.rule('R04.l', 'each chaining method is built on the adaptor that gives its documented order: sequential for a chained request, concurrent for chained streams', floor=3)
     check_stage_order(rep, 'R04.l', core)
     # R04.g: spawn/join/select inside a command rely on every crux-provided future keeping the waker of the current poll (shared with C05 R05.c)
